@@ -812,6 +812,9 @@ DS_SOURCES = {
     "newick-overlap": ("(A,(B,F));((A,F),B);", "newick", ["A", "B", "F"]),
     "newick-new": ("(X,(Y,Z));", "newick", ["X", "Y", "Z"]),
     "newick-case": ("(a,(b,G));", "newick", ["a", "b", "G"]),
+    # character data keyed by labels that are case variants of members: the readers resolve a name as the namespace does
+    "fasta-case": (">a\nACGT\n>b\nACGA\n>G\nAAAA\n", "fasta", ["a", "b", "G"]),
+    "phylip-case": ("3 4\na ACGT\nb ACGA\nG AAAA\n", "phylip", ["a", "b", "G"]),
 }
 
 
@@ -873,13 +876,27 @@ def _history_ds(case):
                     kw["taxon_namespace"] = _mk_ns(["A"], cs)[0]
                 tgt = kw.get("taxon_namespace", ds.attached_taxon_namespace)
                 kw.update(_rkw(tgt is not None and tgt.is_case_sensitive))
+                if schema in ("fasta", "phylip"):
+                    kw["data_type"] = "dna"
+                    kw.pop("case_sensitive_taxon_labels", None)
                 clash = ("taxon_namespace" in kw and ds.attached_taxon_namespace is not None
                          and kw["taxon_namespace"] is not ds.attached_taxon_namespace)
+                folded = None
+                if tgt is not None and not tgt.is_case_sensitive:
+                    folded = collections.Counter(str(t.label).lower() for t in N.members(tgt))
                 try:
                     ds.read(data=text, schema=schema, **kw)
                     if clash:
                         fails.append(("dataset.read.attached-closure", "read() accepted a namespace other than the attached one"))
                     expect.append(labs)
+                    if folded is not None:
+                        # a namespace that ignores case resolves a name to the member whose label equals it ignoring case: a read adds no second
+                        # member for a label it already has in another case
+                        now = collections.Counter(str(t.label).lower() for t in N.members(tgt))
+                        dup = sorted(k for k in now if now[k] > 1 and now[k] > folded.get(k, 0))
+                        if dup:
+                            fails.append(("dataset.read.equal-labels-one-taxon", "reading %s into a namespace that ignores case left it with %r: a second member for %r"
+                                          % (op[1], [t.label for t in N.members(tgt)], dup)))
                 except ValueError:
                     if not clash:
                         raise
